@@ -38,6 +38,18 @@ CHECKS.update({
    technique="Lean 4 theorems over all schedules of a pool model + correspondence with the real Parser.parse",
    ref="DESIGN.md section 4, C18"),
 })
+CHECKS.update({
+ "C19": dict(
+   text="Proof: splitResolved recovers exactly NAME and BODY for ALL word names and newline-free bodies whatever parentheses/commas/braces they contain (splitResolved_lossless, with the exact side condition for text before `insn(` and its counterexample), exact characterisation of rejected lines, splitCompounds losslessness for an empty prefix and a proof that any prefix IS lost (the full-strength statement is refuted: listed known finding), load fails as a whole on any malformed line. Tie: the Lean functions vs the real static methods / loader on all 2181 bundled lines and 72 compounds (exhaustive) and on generated lines (5k quick / 200k thorough) incl. two-step loader histories; the property's own predicate (reconstruction, brace balance, text preserved) is evaluated on the real results.",
+   note=TB + "model Model/PPStrings.lean computes what Python's re computes for the two patterns (hand-written, tied by differential execution).",
+   technique="Lean 4 theorems over a List Char model of the two regexes + exhaustive/generated correspondence with Python re",
+   ref="DESIGN.md section 4, C19"),
+ "C20": dict(
+   text="Proof: the four patch clauses for ALL macro lists and patch dicts (patch_replaces_all, patch_once_first_position, patch_user_only_added, patch_preserves_others), continuation joining loses nothing but the backslashes and is idempotent, do{}while(0) stripping reaches a fixpoint with no remaining match and strips simple wrappers (the look-alike clause is refuted: listed known finding). Tie: Lean functions vs the real helpers on the bundled files (all 2182 intermediate lines) and generated macro/patch sets and bodies; the real pipeline is regenerated in a scratch copy and must reproduce the bundled resolved file, preserve names one-to-one, and leave no invocation of a defined function-like macro. Partial: no theorem that pcpp is ISO C preprocessing (observed on the bundled corpus only); no reference macro expander was built.",
+   note=TB + "model Model/PPMacros.lean mirrors patch_macros, the continuation loop and replace_do_while_0; pcpp is third-party code under test, observed by behaviour.",
+   technique="Lean 4 theorems over models of the preprocessor helpers + correspondence + regeneration of the bundled file",
+   ref="DESIGN.md section 4, C20"),
+})
 NOT_YET = {}
 ALL = [f"C{i:02d}" for i in range(1, 21)]
 def main():
